@@ -170,11 +170,20 @@ structure Rib where
 
 abbrev Tabs := Fam → Rib
 
+/-- what a neighbour session does with a change: `adv` = best_changed ∧ any_changed (a release:
+    every neighbour, Add-Path or not, advertises it); `chg` = any_changed (an ordinary RIB change;
+    best_changed depends on ranking, C02's subject) -/
+inductive ChgKind where
+  | adv | chg
+  | mute     -- neither flag set: no neighbour acts on it (never produced by the model)
+  deriving DecidableEq, Repr, Inhabited
+
 structure Change where
   fam : Fam
   pfx : Nat
   /-- `current_paths`, as the set of announcing peers -/
   peers : List Peer
+  kind : ChgKind := .chg
   deriving DecidableEq, Repr, Inhabited
 
 def Tabs.set (t : Tabs) (f : Fam) (r : Rib) : Tabs := fun g => if g = f then r else t g
@@ -218,7 +227,7 @@ def startDeferral (t : Tabs) (f : Fam) : Tabs := t.set f { t f with deferring :=
 def endDeferral (t : Tabs) (f : Fam) : Tabs × List Change :=
   let r := t f
   (t.set f { r with deferring := false },
-   (prefixes r.paths).map (fun n => { fam := f, pfx := n, peers := peersOf n r.paths }))
+   (prefixes r.paths).map (fun n => { fam := f, pfx := n, peers := peersOf n r.paths, kind := .adv }))
 
 /-- `TableManager::end_deferral_families` -/
 def endDeferralFamilies : List Fam → Tabs → Tabs × List Change
@@ -256,20 +265,35 @@ structure St where
   /-- families whose flag is reported in observations (not daemon state): the harness universe
       {0,1,2} plus every family the configuration names -/
   univ : List Fam := []
+  /-- `Global.selection_deferral_timer.is_some()` -/
+  timer : Bool := false
   deriving Inhabited
 
-/-- `process_restarting_outputs` (timer handle bookkeeping omitted) -/
+/-- `StartDeferralTimer(Some(d))` among the outputs (`start_timer.flatten()`) -/
+def startsTimer (outs : List ROut) : Bool :=
+  outs.any fun o => match o with | .startTimer (some _) => true | _ => false
+
+/-- `process_restarting_outputs`, then (in `process_effects`) the spawn of the timer it asks for -/
 def applyOuts (s : St) (outs : List ROut) : St × List Change :=
   let r1 := endDeferralFamilies (completeFamilies outs) s.tabs
-  match endRemaining outs with
-  | some remaining =>
-      let r2 := endDeferralFamilies remaining r1.1
-      ({ s with sd := none, tabs := r2.1 }, r1.2 ++ r2.2)
-  | none => ({ s with tabs := r1.1 }, r1.2)
+  let s' : St × List Change :=
+    match endRemaining outs with
+    | some remaining =>
+        let r2 := endDeferralFamilies remaining r1.1
+        -- `selection_deferral_timer.take().abort()`, `selection_deferral = None`
+        ({ s with sd := none, tabs := r2.1, timer := false }, r1.2 ++ r2.2)
+    | none => ({ s with tabs := r1.1 }, r1.2)
+  (if startsTimer outs then { s'.1 with timer := true } else s'.1, s'.2)
+
+/-- `stale_routes_time` of the global GR config: absent → 360 s; 0 → disabled; n → n -/
+def selectionDeferralTime : Option Nat → Option Nat
+  | none => some 360
+  | some 0 => none
+  | some n => some n
 
 /-- start-up: `RestartingDeferral::new`, `start_deferral_families`, install unless completed -/
-def init (grPeers : List (Peer × List Fam)) (dur : Option Nat) : St × List ROut :=
-  let r := new grPeers dur
+def init (grPeers : List (Peer × List Fam)) (cfgDur : Option Nat) : St × List ROut :=
+  let r := new grPeers (selectionDeferralTime cfgDur)
   let univ := dedup (famUniverse ++ grPeers.flatMap (·.2))
   if isCompleted r.1 then ({ univ := univ }, r.2)
   else
@@ -292,14 +316,16 @@ inductive Tag where
 structure Obs where
   outs : List ROut
   changes : List Change
-  /-- state of the machine right after `process` (`absent`: no machine installed before the step) -/
+  /-- state of the machine in `Global.selection_deferral` after the step (`absent`: none installed) -/
   tag : Tag
-  /-- `pending` of the machine right after `process` -/
+  /-- its `pending` -/
   pending : Pending
   /-- `Global.selection_deferral.is_some()` after the glue ran -/
   installed : Bool
   /-- families whose `Rib.deferring` is set after the step (over the family universe) -/
   flags : List Fam
+  /-- `Global.selection_deferral_timer.is_some()` after the step -/
+  timer : Bool
   deriving DecidableEq, Repr, Inhabited
 
 def tagOf : RInner → Tag
@@ -313,6 +339,12 @@ def pendingOf : RInner → Pending
   | .completed => []
 
 
+def obsOf (s : St) (outs : List ROut) (changes : List Change) : Obs :=
+  { outs := outs, changes := changes,
+    tag := match s.sd with | some m => tagOf m | none => .absent,
+    pending := match s.sd with | some m => pendingOf m | none => [],
+    installed := s.sd.isSome, flags := flagsOf s.tabs s.univ, timer := s.timer }
+
 def step (s : St) : Ev → St × Obs
   | .rd i =>
       match s.sd with
@@ -320,26 +352,19 @@ def step (s : St) : Ev → St × Obs
           let r := process m i
           let s1 : St := { s with sd := some r.1 }
           let a := applyOuts s1 r.2
-          (a.1, { outs := r.2, changes := a.2, tag := tagOf r.1, pending := pendingOf r.1,
-                  installed := a.1.sd.isSome, flags := flagsOf a.1.tabs s.univ })
-      | none =>
-          (s, { outs := [], changes := [], tag := .absent, pending := [], installed := false,
-                flags := flagsOf s.tabs s.univ })
+          -- (only a PeerEstablished input ever yields StartDeferralTimer, and only its call site,
+          --  `process_effects(GrSessionEstablished)`, spawns the timer)
+          (a.1, obsOf a.1 r.2 a.2)
+      | none => (s, obsOf s [] [])
   | .ins p f n =>
       let r := insert s.tabs p f n
-      ({ s with tabs := r.1 }, obsT s r)
+      ({ s with tabs := r.1 }, obsOf { s with tabs := r.1 } [] r.2)
   | .rm p f n =>
       let r := remove s.tabs p f n
-      ({ s with tabs := r.1 }, obsT s r)
+      ({ s with tabs := r.1 }, obsOf { s with tabs := r.1 } [] r.2)
   | .drop p f =>
       let r := dropPeer s.tabs p f
-      ({ s with tabs := r.1 }, obsT s r)
-where
-  obsT (s : St) (r : Tabs × List Change) : Obs :=
-    { outs := [], changes := r.2,
-      tag := match s.sd with | some m => tagOf m | none => .absent,
-      pending := match s.sd with | some m => pendingOf m | none => [],
-      installed := s.sd.isSome, flags := flagsOf r.1 s.univ }
+      ({ s with tabs := r.1 }, obsOf { s with tabs := r.1 } [] r.2)
 
 def runFrom (s : St) : List Ev → St × List Obs
   | [] => (s, [])
@@ -356,10 +381,7 @@ structure Cfg where
 /-- observation of the start-up step -/
 def initObs (cfg : Cfg) : St × Obs :=
   let r := init cfg.peers cfg.dur
-  (r.1, { outs := r.2, changes := [],
-          tag := match r.1.sd with | some m => tagOf m | none => .absent,
-          pending := match r.1.sd with | some m => pendingOf m | none => [],
-          installed := r.1.sd.isSome, flags := flagsOf r.1.tabs r.1.univ })
+  (r.1, obsOf r.1 r.2 [])
 
 def run (cfg : Cfg) (evs : List Ev) : List Obs :=
   let r := initObs cfg
